@@ -338,8 +338,34 @@ def semC : Sem CV where
 def hex16 (n : Nat) : String :=
   String.ofList ((List.range 16).reverse.map fun i => hexDigit (n / 16 ^ i % 16))
 
+/-- a number rounded (half-even on the exact value) to 12 significant digits: `<sign><digits>e<exp10>`;
+Go's `math.Pow` and libm's `pow` differ in the last ulp, the property is not about the last ulp -/
+def round12 (x : Float) : String :=
+  if isNaN x then "NaN" else
+  let neg := x.toBits.toNat ≥ 2 ^ 63
+  let ax := Float.ofBits (x.toBits &&& 0x7FFFFFFFFFFFFFFF)
+  let sign := if neg then "-" else ""
+  if ax == 0 then sign ++ "0"
+  else if ax.toBits.toNat ≥ 0x7FF0000000000000 then sign ++ "Inf"
+  else
+    let (f, q, _) := decomp ax
+    let N := if q ≥ 0 then f * 2 ^ q.toNat else f
+    let D := if q ≥ 0 then 1 else 2 ^ (-q).toNat
+    let est : Int := ((f.log2 : Int) + q) * 30103 / 100000
+    let e10 := findE10 N D 700 est
+    let p : Int := e10 - 11
+    let T := if p < 0 then pow10 (-p).toNat else 1
+    let P := if p ≥ 0 then pow10 p.toNat else 1
+    let num := N * T
+    let den := D * P
+    let d0 := num / den
+    let rem := num % den
+    let d := if 2 * rem > den || (2 * rem == den && d0 % 2 == 1) then d0 + 1 else d0
+    let (d, e10) := if d == pow10 12 then (d / 10, e10 + 1) else (d, e10)
+    sign ++ toString d ++ "e" ++ toString e10
+
 def showCV : CV → String
-  | .num x => "num:" ++ hex16 x.toBits.toNat
+  | .num x => "num:" ++ round12 x
   | .bool b => "bool:" ++ (if b then "1" else "0")
   | .str s => "str:" ++ hexS (bytesOf s)
   | .err _ => "errv"
